@@ -102,5 +102,7 @@ MUTANTS = [
                 else:
                     continue
 """)], 'xfail': 'else-continue form after the guarded add is not in the accepted idiom list (accumulation outside the if)'},
+    {'name': 'benign-filter-at-push-and-test-at-pop', 'expect': 'silent', 'property': 'C15',
+     'edits': [E(I, "                agenda.extend(hypernym_cache[ss])", "                agenda.extend(hyp for hyp in hypernym_cache[ss] if hyp not in seen)")]},
 ]
 MUTANTS = [m for m in MUTANTS if 'xfail' not in m]
